@@ -3,18 +3,30 @@ package main
 // Backends the shared builder cannot perturb, constructed here with harness-owned lower layers:
 //   files-yieldvfs     pkg/blobserver/files (what localdisk is) over the OS file system behind a
 //                      VFS wrapper that yields before and after every file-system step
+//                      ("root": name of the root directory - one that contains "queue-" is a sync
+//                      queue, whose empty shard directories an enumeration removes in the background;
+//                      "rmdir": the VFS removes directories like rmdir(2) / the sftp VFS does, instead
+//                      of OSFS's RemoveAll)
 //   diskpacked-wrapkv  diskpacked whose on-disk metaIndex (leveldb / kv / sqlite) sits behind inject.WrapKV,
 //                      so that the schedule is perturbed between diskpacked's own index steps
+//   proxycache-local   proxycache.New over two harness-owned memory stores, BOTH behind inject wrappers
+//                      ("pc-cache", "pc-origin"): yields and directed holds at the cache's boundary,
+//                      eviction by proxycache's own LRU ("cacheBytes"), origin pre-loadable below the cache
 
 import (
+	"context"
 	"fmt"
 	"os"
 	"path/filepath"
+	"sync"
 	"sync/atomic"
 
 	"go4.org/jsonconfig"
+	"perkeep.org/pkg/blob"
 	"perkeep.org/pkg/blobserver"
 	"perkeep.org/pkg/blobserver/files"
+	"perkeep.org/pkg/blobserver/memory"
+	"perkeep.org/pkg/blobserver/proxycache"
 	"perkeep.org/pkg/sorted"
 
 	"verif.local/harness/inject"
@@ -25,6 +37,12 @@ type yieldVFS struct {
 	files.VFS
 	y func(inject.Call)
 	n *atomic.Int64
+	// rmdir: RemoveDir only removes an empty directory (rmdir(2), what the sftp VFS does)
+	rmdir bool
+	// dirsRemoved counts successful directory removals, dirsRecreated the MkdirAll calls that
+	// found a directory gone which an earlier clean-up had removed (evidence)
+	dirsRemoved, dirsRecreated *atomic.Int64
+	gone                       *sync.Map // path -> true
 }
 
 func (v yieldVFS) step(op string) func() {
@@ -33,16 +51,44 @@ func (v yieldVFS) step(op string) func() {
 	return func() { v.y(inject.Call{Layer: "vfs", Op: op}) }
 }
 
-func (v yieldVFS) Remove(p string) error               { defer v.step("Remove")(); return v.VFS.Remove(p) }
-func (v yieldVFS) RemoveDir(p string) error            { defer v.step("RemoveDir")(); return v.VFS.RemoveDir(p) }
-func (v yieldVFS) Stat(p string) (os.FileInfo, error)  { defer v.step("Stat")(); return v.VFS.Stat(p) }
-func (v yieldVFS) Lstat(p string) (os.FileInfo, error) { defer v.step("Lstat")(); return v.VFS.Lstat(p) }
+func (v yieldVFS) Remove(p string) error { defer v.step("Remove")(); return v.VFS.Remove(p) }
+func (v yieldVFS) RemoveDir(p string) error {
+	defer v.step("RemoveDir")()
+	var err error
+	if v.rmdir {
+		err = os.Remove(p)
+	} else {
+		_, serr := os.Lstat(p)
+		err = v.VFS.RemoveDir(p)
+		if serr != nil {
+			return err // nothing was there
+		}
+	}
+	if err == nil && v.dirsRemoved != nil {
+		v.dirsRemoved.Add(1)
+		v.gone.Store(p, true)
+	}
+	return err
+}
+func (v yieldVFS) Stat(p string) (os.FileInfo, error) { defer v.step("Stat")(); return v.VFS.Stat(p) }
+func (v yieldVFS) Lstat(p string) (os.FileInfo, error) {
+	defer v.step("Lstat")()
+	return v.VFS.Lstat(p)
+}
 func (v yieldVFS) Open(p string) (files.ReadableFile, error) {
 	defer v.step("Open")()
 	return v.VFS.Open(p)
 }
 func (v yieldVFS) MkdirAll(p string, perm os.FileMode) error {
 	defer v.step("MkdirAll")()
+	if v.gone != nil {
+		if _, was := v.gone.Load(p); was {
+			if _, err := os.Lstat(p); err != nil {
+				v.gone.Delete(p)
+				v.dirsRecreated.Add(1)
+			}
+		}
+	}
 	return v.VFS.MkdirAll(p, perm)
 }
 func (v yieldVFS) Rename(o, n string) error { defer v.step("Rename")(); return v.VFS.Rename(o, n) }
@@ -56,10 +102,12 @@ func (v yieldVFS) ReadDirNames(dir string) ([]string, error) {
 }
 
 type localBuilt struct {
-	b        *sto.Built
-	close    func()
-	vfsSteps *atomic.Int64
-	kvName   string
+	b             *sto.Built
+	close         func()
+	vfsSteps      *atomic.Int64
+	dirsRemoved   *atomic.Int64
+	dirsRecreated *atomic.Int64
+	kvName        string
 }
 
 var localSeq atomic.Int64
@@ -74,13 +122,37 @@ func buildLocal(dir string, plan *inject.Plan, spec *sto.Spec) (lb *localBuilt, 
 	}
 	switch spec.Kind {
 	case "files-yieldvfs":
-		root := filepath.Join(dir, "files")
+		root := filepath.Join(dir, str("root", "files"))
 		if err := os.MkdirAll(root, 0o700); err != nil {
 			return nil, true, err
 		}
-		n := new(atomic.Int64)
-		s := files.NewStorage(yieldVFS{VFS: files.OSFS(), y: plan.Yield, n: n}, root)
-		return &localBuilt{b: &sto.Built{Spec: spec, S: s, Caps: sto.Caps{Receive: true, Remove: true, SubFetch: true}}, close: func() {}, vfsSteps: n}, true, nil
+		n, rm, rc := new(atomic.Int64), new(atomic.Int64), new(atomic.Int64)
+		rmdir, _ := spec.P["rmdir"].(bool)
+		s := files.NewStorage(yieldVFS{VFS: files.OSFS(), y: plan.Yield, n: n, rmdir: rmdir, dirsRemoved: rm, dirsRecreated: rc, gone: new(sync.Map)}, root)
+		return &localBuilt{b: &sto.Built{Spec: spec, S: s, Caps: sto.Caps{Receive: true, Remove: true, SubFetch: true}}, close: func() {}, vfsSteps: n, dirsRemoved: rm, dirsRecreated: rc}, true, nil
+	case "proxycache-local":
+		max := int64(300)
+		switch v := spec.P["cacheBytes"].(type) {
+		case int:
+			max = int64(v)
+		case float64:
+			max = int64(v)
+		}
+		originMem, cacheMem := &memory.Storage{}, &memory.Storage{}
+		origin := inject.Wrap("pc-origin", originMem, plan)
+		cache := inject.Wrap("pc-cache", cacheMem, plan)
+		s := proxycache.New(max, cache, origin)
+		b := &sto.Built{Spec: spec, S: s, Caps: sto.Caps{Receive: true, Remove: true, SubFetch: true},
+			Leaves: []*inject.Storage{inject.Base(origin), inject.Base(cache)},
+			// below the cache: only the origin holds the blobs
+			Preload: func(bl []sto.Blob) error { return sto.StoreAll(originMem, bl) }}
+		cl := func() {
+			// blobserver.Receive keeps a hub per storage value for ever: give the memory back
+			for _, m := range []*memory.Storage{originMem, cacheMem} {
+				emptyMem(m)
+			}
+		}
+		return &localBuilt{b: b, close: cl}, true, nil
 	case "diskpacked-wrapkv":
 		d := filepath.Join(dir, "diskpacked")
 		if err := os.MkdirAll(d, 0o700); err != nil {
@@ -121,4 +193,11 @@ func buildLocal(dir string, plan *inject.Plan, spec *sto.Spec) (lb *localBuilt, 
 		return &localBuilt{b: &sto.Built{Spec: spec, S: s, Caps: sto.Caps{Receive: true, Remove: true, SubFetch: true}}, close: cl, kvName: name}, true, nil
 	}
 	return nil, false, nil
+}
+
+func emptyMem(m *memory.Storage) {
+	ctx := context.Background()
+	var refs []blob.Ref
+	blobserver.EnumerateAll(ctx, m, func(sb blob.SizedRef) error { refs = append(refs, sb.Ref); return nil })
+	m.RemoveBlobs(ctx, refs)
 }
